@@ -8,10 +8,12 @@ import (
 	"math/rand"
 	"net"
 	"net/http"
+	"os"
 	"reflect"
 	goruntime "runtime"
 	"strings"
 	"sync"
+	"sync/atomic"
 	"testing"
 	"time"
 	"unsafe"
@@ -102,14 +104,24 @@ func c11rtGet(addr, path string, timeout time.Duration) c11rtResp {
 	return c11rtResp{Status: resp.StatusCode, Backend: resp.Header.Get(hdrBackend)}
 }
 
+// c11rtFreePort picks a port below the kernel's ephemeral range (no ":0" listener and no
+// outgoing connection of a neighbouring process is ever given such a port between this probe
+// and the server's own bind) that can be bound on all interfaces right now.
 func c11rtFreePort() int {
-	l, err := net.Listen("tcp", "127.0.0.1:0")
-	if err != nil {
-		return 0
+	seq := atomic.AddInt64(&c11rtPortSeq, 1)
+	for try := 0; try < 400; try++ {
+		p := 10000 + int((int64(os.Getpid())*131+seq*7919+int64(try)*13)%20000)
+		l, err := net.Listen("tcp", fmt.Sprintf(":%d", p))
+		if err != nil {
+			continue
+		}
+		l.Close()
+		return p
 	}
-	defer l.Close()
-	return l.Addr().(*net.TCPAddr).Port
+	return 0
 }
+
+var c11rtPortSeq int64
 
 // TestVerif_C11_Runtime: a real listening HTTPServer object is updated (Inherit) while a
 // request is in flight; new connections must keep being served, by the old or the new
